@@ -15,6 +15,7 @@ package corr
 
 import (
 	"fmt"
+	"sort"
 	"strings"
 	"sync"
 	"testing"
@@ -158,18 +159,27 @@ func c17ParseShape(m map[string]string) (s c17Shape, ok bool) {
 	return s, true
 }
 
+type c17Ent struct {
+	stream, seq int
+	line        string // timed canonical line
+	body        string // "s=… seq=… h=… p=…" without the time
+}
+
 type c17Rec struct {
 	mu    sync.Mutex
 	start time.Time
 	lines []string
+	ents  []c17Ent // the same deliveries, structured (used by the concurrent-writer block)
 }
 
 func (r *c17Rec) writer(stream int) interceptor.RTPWriter {
 	return interceptor.RTPWriterFunc(func(h *rtp.Header, p []byte, _ interceptor.Attributes) (int, error) {
 		r.mu.Lock()
 		defer r.mu.Unlock()
-		r.lines = append(r.lines, fmt.Sprintf("d t=%d s=%d seq=%d h=%08x p=%08x",
-			time.Since(r.start).Microseconds(), stream, h.SequenceNumber, c17HdrDigest(h), fnv(fnvInit, p...)))
+		body := fmt.Sprintf("s=%d seq=%d h=%08x p=%08x", stream, h.SequenceNumber, c17HdrDigest(h), fnv(fnvInit, p...))
+		line := fmt.Sprintf("d t=%d %s", time.Since(r.start).Microseconds(), body)
+		r.lines = append(r.lines, line)
+		r.ents = append(r.ents, c17Ent{stream: stream, seq: int(h.SequenceNumber), line: line, body: body})
 		return h.MarshalSize() + len(p), nil
 	})
 }
@@ -181,6 +191,7 @@ func (r *c17Rec) flush(o *Out) {
 		o.P("%s", l)
 	}
 	r.lines = nil
+	r.ents = nil
 }
 
 func c17Err(err error) string {
@@ -217,6 +228,12 @@ func runPacing(t *testing.T, ops []string, o *Out) {
 		var ic interceptor.Interceptor
 		writers := map[int]interceptor.RTPWriter{}
 		closed := false
+		type cwW struct {
+			sh c17Shape
+			sl int
+		}
+		var cw map[int][]cwW // non-nil between cwbegin and cwend
+		cwDone := false
 		defer func() {
 			if ic != nil && !closed {
 				_ = ic.Close()
@@ -224,7 +241,117 @@ func runPacing(t *testing.T, ops []string, o *Out) {
 		}()
 		for _, op := range ops {
 			name, m := kv(op)
+			if cwDone && name != "close" { // the bucket state after a concurrent block depends on the schedule
+				o.P("bad-op")
+				continue
+			}
+			if cw != nil && name != "cww" && name != "cwend" {
+				o.P("bad-op")
+				continue
+			}
 			switch name {
+			case "cwbegin":
+				if ic == nil || closed {
+					o.P("bad-op")
+					continue
+				}
+				cw = map[int][]cwW{}
+			case "cww":
+				st, ok := c17NatOK(m, "s", 1000)
+				sh, ok2 := c17ParseShape(m)
+				sl, ok3 := c17NatOK(m, "sl", 1_000_000)
+				if cw == nil || !ok || !ok2 || !ok3 || writers[st] == nil {
+					o.P("bad-op")
+					continue
+				}
+				cw[st] = append(cw[st], cwW{sh, sl})
+			case "cwend":
+				drain, ok := c17NatOK(m, "drain", 600_000_000)
+				if cw == nil || !ok {
+					o.P("bad-op")
+					continue
+				}
+				synctest.Wait()
+				// one real goroutine per stream; the acceptance index is taken under a harness mutex
+				// held around the Write call, so it is the order in which the sends reached the queue
+				type acc struct {
+					stream, seq, n int
+					err            string
+				}
+				var mu sync.Mutex
+				var order []acc
+				results := map[int][]acc{}
+				var wg sync.WaitGroup
+				streams := []int{}
+				for st := range cw {
+					streams = append(streams, st)
+				}
+				sort.Ints(streams)
+				for _, st := range streams {
+					wg.Add(1)
+					go func(st int, ws []cwW, w interceptor.RTPWriter) {
+						defer wg.Done()
+						for _, x := range ws {
+							if x.sl > 0 {
+								time.Sleep(time.Duration(x.sl) * time.Microsecond)
+							}
+							h, pay, _ := c17Build(x.sh)
+							mu.Lock()
+							n, err := w.Write(h, pay, interceptor.Attributes{})
+							a := acc{st, x.sh.seq, n, c17Err(err)}
+							if err == nil {
+								order = append(order, a)
+							}
+							results[st] = append(results[st], a)
+							mu.Unlock()
+							c17Scribble(h, pay)
+						}
+					}(st, cw[st], writers[st])
+				}
+				wg.Wait()
+				time.Sleep(time.Duration(drain) * time.Microsecond)
+				synctest.Wait()
+				inBlock := map[[2]int]bool{}
+				for _, a := range order {
+					inBlock[[2]int{a.stream, a.seq}] = true
+				}
+				rec.mu.Lock()
+				ents := rec.ents
+				rec.ents, rec.lines = nil, nil
+				rec.mu.Unlock()
+				var blk []c17Ent
+				for _, e := range ents {
+					if inBlock[[2]int{e.stream, e.seq}] {
+						blk = append(blk, e)
+					} else {
+						o.P("%s", e.line) // left over from before the block: released first, timing unaffected
+					}
+				}
+				for _, st := range streams {
+					for _, a := range results[st] {
+						o.P("cw s=%d n=%d err=%s", st, a.n, a.err)
+					}
+				}
+				for _, st := range streams {
+					for _, e := range blk {
+						if e.stream == st {
+							o.P("cwd %s", e.body)
+						}
+					}
+				}
+				ord := "ok"
+				if len(blk) > len(order) {
+					ord = "bad"
+				}
+				for i := range blk {
+					if i < len(order) && (blk[i].stream != order[i].stream || blk[i].seq != order[i].seq) {
+						ord = "bad"
+					}
+				}
+				o.P("cwsum accepted=%d delivered=%d order=%s", len(order), len(blk), ord)
+				cw = nil
+				cwDone = true
+				continue
 			case "new":
 				r, ok1 := c17NatOK(m, "rate", 2_000_000_000)
 				iv, ok2 := c17NatOK(m, "ivl", 1_000_000)
@@ -452,8 +579,11 @@ func c17Rate(r *Rng) int {
 
 func genPacing(r *Rng, tier string, idx int) Case {
 	classes := []string{"steady", "burst", "ratechange", "multistream", "shapes", "lowrate", "highrate",
-		"oversize", "closed", "intervals", "edge"}
+		"oversize", "closed", "intervals", "edge", "concurrent"}
 	cl := classes[idx%len(classes)]
+	if cl == "concurrent" {
+		return genPacingConcurrent(r)
+	}
 	rate := c17Rate(r)
 	ivl := 5000
 	switch cl {
@@ -557,6 +687,85 @@ func genPacing(r *Rng, tier string, idx int) Case {
 	}
 	adv(400)
 	return Case{Class: cl, Ops: ops}
+}
+
+// genPacingConcurrent: 2-4 real goroutines, one per stream, write without any synctest.Wait between
+// the writes (some sleep a little, so ticks and the loop's drain interleave with the writers).
+// Which packet is released at which tick depends on the schedule, so the block's observable is
+// order-insensitive across streams: per stream the Write results and the deliveries (seq, header
+// digest, payload digest) in order, plus the harness's own check that the global delivery order is
+// the acceptance order.  All packets are < burst bits and the drain time is long enough for all
+// of them, whatever the interleaving.
+func genPacingConcurrent(r *Rng) Case {
+	rate := r.Pick(100_000, 500_000, 1_000_000, 2_400_000, 10_000_000, 100_000_000, r.Range(100_000, 20_000_000))
+	ivl := r.Pick(2500, 5000, 5000, 10_000, 20_000)
+	ops := []string{fmt.Sprintf("new rate=%d ivl=%d", rate, ivl)}
+	ns := r.Range(2, 4)
+	seq := make([]int, ns)
+	for s := 0; s < ns; s++ {
+		ops = append(ops, fmt.Sprintf("bind s=%d", s))
+		seq[s] = r.Pick(0, 65530, r.Intn(65536))
+	}
+	bits := 0
+	shape := func() (cc, xp int, xl []int, pl int) {
+		cc = r.Pick(0, 0, 3, 15)
+		if r.Chance(1, 3) {
+			xp = 1
+			for i, n := 0, r.Range(0, 4); i < n; i++ {
+				xl = append(xl, r.Range(1, 16))
+			}
+		}
+		pl = r.Pick(0, 1, 100, 1200, r.Range(0, 1200))
+		return
+	}
+	// a few ordinary writes first; some are still queued when the block starts
+	for i, n := 0, r.Range(0, 6); i < n; i++ {
+		s := r.Intn(ns)
+		cc, xp, xl, pl := shape()
+		bits += 8 * rtpLen(c17Shape{ssrc: 1000 + s, seq: seq[s] & 0xFFFF, cc: cc, xp: xp, xl: xl, pl: pl})
+		ops = append(ops, c17WriteOp(s, true, 1000+s, seq[s], cc, xp, xl, pl, false))
+		seq[s]++
+	}
+	if r.Chance(1, 2) {
+		ops = append(ops, fmt.Sprintf("adv us=%d", r.Range(0, 3*ivl)))
+	}
+	ops = append(ops, "cwbegin")
+	per := make([][]string, ns)
+	for s := 0; s < ns; s++ {
+		for i, n := 0, r.Range(3, 15); i < n; i++ {
+			cc, xp, xl, pl := shape()
+			bits += 8 * rtpLen(c17Shape{ssrc: 1000 + s, seq: seq[s] & 0xFFFF, cc: cc, xp: xp, xl: xl, pl: pl})
+			sl := 0
+			if r.Chance(1, 3) {
+				sl = r.Pick(1, ivl/2, ivl, 2*ivl+1, r.Range(1, 3*ivl))
+			}
+			per[s] = append(per[s], fmt.Sprintf("cww s=%d ssrc=%d seq=%d cc=%d xp=%d xl=%s pl=%d sl=%d",
+				s, 1000+s, seq[s]&0xFFFF, cc, xp, joinInts(xl), pl, sl))
+			seq[s]++
+		}
+	}
+	// the op order of the cww lines is irrelevant to the harness (one goroutine per stream); shuffle it
+	idx := make([]int, ns)
+	for {
+		var cand []int
+		for s := 0; s < ns; s++ {
+			if idx[s] < len(per[s]) {
+				cand = append(cand, s)
+			}
+		}
+		if len(cand) == 0 {
+			break
+		}
+		s := cand[r.Intn(len(cand))]
+		ops = append(ops, per[s][idx[s]])
+		idx[s]++
+	}
+	drain := 2*(bits*1000/rate)*1000 + 10*ivl + 100_000
+	ops = append(ops, fmt.Sprintf("cwend drain=%d", drain))
+	if r.Chance(1, 2) {
+		ops = append(ops, "close")
+	}
+	return Case{Class: "concurrent", Ops: ops}
 }
 
 func genLeaky(r *Rng, tier string, idx int) Case {
